@@ -452,6 +452,59 @@ def streams(rng, tier):
                      "get_mut() after each failure: a chunk that fits is written, whatever failed before; oracle computed here")
     s7.shrinkable = False
     out.append(s7)
+    # ---- token lists through ONE Encoder::tokens call (indefinite containers open when the sink runs out) at every capacity
+    tops = []
+    lists = [["beginarray", "string:s616263", "u8:1", "break"], ["beginmap", "u8:1", "beginarray", "bytes:h0102", "break", "break"],
+             ["beginstring", "string:s6162", "string:s63", "break"], ["array:2", "beginarray", "u16:300", "break", "u8:1"],
+             ["beginarray", "beginarray", "beginmap", "break", "break", "u64:4294967296", "break"], ["tag:1", "beginbytes", "bytes:h010203", "break"]]
+    for _ in range(150 if tier == "quick" else 3000):
+        l = []
+        depth = 0
+        for _ in range(rng.randint(1, 8)):
+            r = rng.random()
+            if r < 0.3:
+                l.append(rng.choice(["beginarray", "beginmap"])); depth += 1
+            elif r < 0.45 and depth:
+                l.append("break"); depth -= 1
+            else:
+                l.append(rng.choice(["u8:1", "u16:300", "string:s616263", "bytes:h0102", "null", "u32:70000", "f64:x3ff8000000000000", "string:s" + "61" * 30]))
+        l += ["break"] * depth
+        lists.append(l)
+    tmodel = []
+    for l in lists:
+        for kind in ("slice", "cslice", "cbox"):
+            for cap in range(0, 48):
+                tops.append(f"sinktok {kind} {cap} {','.join(l)}"); tmodel.append("tokenc " + ",".join(l))
+    def judge_sinktok(op, impl, model, spec):
+        w = op.split(" ")
+        cap = int(w[2])
+        mw = model.split(" ")
+        if len(mw) != 2 or not mw[1].startswith("len="):
+            return "corr"
+        full = b"" if mw[0] == "-" else bytes.fromhex(mw[0])
+        iw = impl.split(" ")
+        if impl.startswith("ok "):
+            st, rest = "ok", iw[1:]
+        elif impl.startswith("err write "):
+            st, rest = "err", iw[2:]
+        else:
+            return "violation"
+        kv = dict(x.split("=", 1) for x in rest)
+        pos = int(kv["pos"]); buf = b"" if kv["buf"] == "-" else bytes.fromhex(kv["buf"])
+        if kv.get("canary") != "ok" or len(buf) != cap or pos > cap:
+            return "violation"
+        if (st == "ok") != (len(full) <= cap):
+            return "violation"                          # Ok exactly when the whole encoding fits
+        if buf[:pos] != full[:pos] or any(b != 0xEE for b in buf[pos:]):
+            return "violation"                          # what was accepted is a prefix of the encoding; nothing behind it is touched
+        if st == "ok" and pos != len(full):
+            return "violation"
+        return "ok"
+    s8 = Stream("token-lists-into-bounded-sinks", "hcore", tops, model_ops=tmodel, judge=judge_sinktok,
+                rule="sinktok: a balanced token list (indefinite containers, chunked strings, tags) through one Encoder::tokens call into &mut [u8] / Cursor sinks of every "
+                     "capacity 0..47: Ok exactly when the model's encoding fits; otherwise a write error, the accepted bytes a prefix of that encoding, nothing behind them touched")
+    s8.shrinkable = False
+    out.append(s8)
     return out
 
 
@@ -459,6 +512,11 @@ def replay_streams(rp):
     op = rp.get("original_op") or rp["op"]
     if op.startswith("tsink"):
         s = Stream("replay", "hcore", [op], model_ops=[rp.get("model_op") or "nop"], judge=lambda o, i, m, sp: "ok" if i.startswith("fits ") else "violation")
+        s.shrinkable = False
+        return [s]
+    if op.startswith("sinktok"):
+        st = [x for x in streams(__import__("random").Random(1), "quick") if x.name.startswith("token-lists-into")][0]
+        s = Stream("replay", "hcore", [op], model_ops=["tokenc " + op.split(" ")[3]], judge=st.judge)
         s.shrinkable = False
         return [s]
     if op.startswith("sinkio"):
